@@ -45,13 +45,16 @@ fn case<S: Shape>(r: &mut Rng, acc: &mut Acc, index: u64) {
     let disjoint = r.chance(1, 2);
     let mut specs: Vec<TlSpec> = Vec::new();
     for ci in 0..n_comp {
-        let mut s = gen_tl(r, kinds, &GenOpts { min_kf: 1, neg_delay: true, ..GenOpts::default() });
+        let mut s = gen_tl(r, kinds, &GenOpts { min_kf: 1, neg_delay: true, shuffle: true, ..GenOpts::default() });
         if r.chance(1, 6) {
             s.repeat = *r.pick(&[Rep::Times(u32::MAX), Rep::Times(u32::MAX - 1), Rep::Times(1 << 20), Rep::Infinite, Rep::Times(7)]);
         }
         if r.chance(1, 3) && ci > 0 {
             // same cycle as the first component now and then
             s.cycle = specs[0].cycle;
+        } else if r.chance(1, 3) && ci > 1 {
+            // ... or as the previous one (a disagreeing head followed by an agreeing tail)
+            s.cycle = specs[ci - 1].cycle;
         }
         if disjoint {
             for k in s.kfs.iter_mut() {
@@ -154,7 +157,12 @@ fn case<S: Shape>(r: &mut Rng, acc: &mut Acc, index: u64) {
             if g3.all_bits() != got.all_bits() {
                 acc.violation("c12:nested", format!("merged-of-merged (split after {k}) differs from the flat merged timeline at t={t}"), case("nesting", t));
             }
-            if !same_f32(nested.delay(), merged.delay()) || nested.duration().to_bits() != merged.duration().to_bits() || nested.repeat() != merged.repeat() {
+            // (a half whose members disagree reports no cycle duration, which agrees with nothing)
+            if !same_f32(nested.delay(), merged.delay())
+                || nested.duration().to_bits() != merged.duration().to_bits()
+                || nested.repeat() != merged.repeat()
+                || nested.cycle_duration().map(|x| x.to_bits()) != merged.cycle_duration().map(|x| x.to_bits())
+            {
                 acc.violation("c12:nested-meta", "merged-of-merged reports different aggregate timing than the flat merged timeline".to_string(), case("nesting-metadata", t));
             }
         }
